@@ -6,7 +6,7 @@ namespace RefP
 
 abbrev Tid := Nat
 
-inductive Op | retain | release | enqueue | work
+inductive Op | retain | release | enqueue | work | target | untarget
 inductive Pc
   | idle
   | xdispose        -- saw the external count drop to −1: runs xref_dispose, then drops the internal ref
@@ -18,6 +18,7 @@ structure Sh where
   xref : Int := 0             -- os_obj_xref_cnt (0 = one client reference)
   iref : Int := 0             -- os_obj_ref_cnt
   tokens : Nat := 0           -- wakeups sitting in the target queue, each owning +2
+  inner : Nat := 0            -- +1 internal references: objects that target this one, armed registrations, …
   freed : Bool := false
   finalized : Nat := 0
   -- ghosts
@@ -47,6 +48,16 @@ def step (sh : Sh) (t : Tid) (pc : Pc) (op : Op) : List (Sh × Pc) :=
         [({ sh with iref := sh.iref + 2, tokens := sh.tokens + 1 }, .idle)] else []
     | .work =>
       if sh.tokens > 0 then [({ sh with tokens := sh.tokens - 1, drainers := t :: sh.drainers }, .draining)] else []
+    | .target =>
+      -- `_dispatch_retain`: taken through a reference that already exists (a child queue created / retargeted by a client
+      -- that holds the object, a drain in progress, or a copy of an existing internal reference)
+      if t ∈ sh.xholders ∨ t ∈ sh.drainers ∨ sh.inner > 0 then [({ sh with iref := sh.iref + 1, inner := sh.inner + 1 }, .idle)] else []
+    | .untarget =>
+      -- `_dispatch_release` of such a reference (the child is disposed, the registration is torn down)
+      if sh.inner > 0 then
+        let sh' := { sh with iref := sh.iref - 1, inner := sh.inner - 1 }
+        if sh'.iref ≥ 0 then [(sh', .idle)] else [({ sh' with disposers := t :: sh.disposers }, .dispose)]
+      else []
   | .xdispose =>
     let sh' := { sh with iref := sh.iref - 1, xalive := false, xdl := rm1 sh.xdl t }
     if sh'.iref ≥ 0 then [(sh', .idle)] else [({ sh' with disposers := t :: sh.disposers }, .dispose)]
@@ -102,8 +113,8 @@ def b2n (b : Bool) : Nat := if b then 1 else 0
 structure G (sh : Sh) : Prop where
   x : sh.xref + 1 = sh.xholders.length
   xa : sh.xalive = false → sh.xholders = []
-  i : sh.iref + 1 = b2i sh.xalive + 2 * (sh.tokens + sh.drainers.length)
-  dz : sh.disposers ≠ [] ∨ sh.freed = true → sh.xalive = false ∧ sh.tokens = 0 ∧ sh.drainers = []
+  i : sh.iref + 1 = b2i sh.xalive + 2 * (sh.tokens + sh.drainers.length) + sh.inner
+  dz : sh.disposers ≠ [] ∨ sh.freed = true → sh.xalive = false ∧ sh.tokens = 0 ∧ sh.drainers = [] ∧ sh.inner = 0
   fin : sh.finalized + sh.disposers.length = b2n (sh.freed || decide (sh.disposers ≠ []))
   d1 : sh.disposers.length ≤ 1
   xd1 : sh.xdl.length ≤ 1
@@ -128,16 +139,17 @@ theorem others_of {sh sh' : Sh} {t : Tid}
 theorem b2i_cases (b : Bool) : (b = false ∧ b2i b = 0) ∨ (b = true ∧ b2i b = 1) := by cases b <;> simp [b2i]
 
 /-- while any client reference, queued wakeup or drainer exists nothing is being disposed -/
-theorem alive_of {sh : Sh} (g : G sh) (h : sh.xholders ≠ [] ∨ sh.tokens > 0 ∨ sh.drainers ≠ [] ∨ sh.xdl ≠ []) :
+theorem alive_of {sh : Sh} (g : G sh) (h : sh.xholders ≠ [] ∨ sh.tokens > 0 ∨ sh.drainers ≠ [] ∨ sh.xdl ≠ [] ∨ sh.inner > 0) :
     sh.disposers = [] ∧ sh.freed = false := by
   have hnd : ¬ (sh.disposers ≠ [] ∨ sh.freed = true) := by
     intro hd
-    have ⟨h1, h2, h3⟩ := g.dz hd
-    rcases h with h | h | h | h
+    have ⟨h1, h2, h3, h4⟩ := g.dz hd
+    rcases h with h | h | h | h | h
     · exact h (g.xa h1)
     · omega
     · exact h h3
     · have := (g.xdg h).1; rw [h1] at this; cases this
+    · omega
   constructor
   · cases hd : sh.disposers with
     | nil => rfl
@@ -227,6 +239,47 @@ theorem step_local {sh : Sh} {t : Tid} {pc : Pc} {op : Op} {sh' : Sh} {pc' : Pc}
           others_of (by intro u hu; simp [List.count_cons, Ne.symm hu]) (by intro u _; rfl) (by intro u _; rfl)⟩
         intro hd; simp [hd0, hf0] at hd
       · simp at h
+    | target =>
+      simp only [step] at h
+      split at h
+      · rename_i hm
+        simp at h; obtain ⟨rfl, rfl⟩ := h
+        have ⟨hd0, hf0⟩ := alive_of g0 (by
+          rcases hm with hm | hm | hm
+          · exact Or.inl (by intro e; rw [e] at hm; simp at hm)
+          · exact Or.inr (Or.inr (Or.inl (by intro e; rw [e] at hm; simp at hm)))
+          · exact Or.inr (Or.inr (Or.inr (Or.inr hm))))
+        refine ⟨⟨gx, gxa, by simp; omega, ?_, gfin, gd1, gxd1, gxdg⟩,
+          ⟨by simp [b2n, ldr], by simp [b2n, ldp], by simp [b2n, lxd]⟩,
+          others_of (by intro u _; rfl) (by intro u _; rfl) (by intro u _; rfl)⟩
+        intro hd; simp [hd0, hf0] at hd
+      · simp at h
+    | untarget =>
+      simp only [step] at h
+      split at h
+      · rename_i hm
+        have ⟨hd0, hf0⟩ := alive_of g0 (Or.inr (Or.inr (Or.inr (Or.inr hm))))
+        split at h
+        · simp at h; obtain ⟨rfl, rfl⟩ := h
+          refine ⟨⟨gx, gxa, by simp; omega, ?_, gfin, gd1, gxd1, gxdg⟩,
+            ⟨by simp [b2n, ldr], by simp [b2n, ldp], by simp [b2n, lxd]⟩,
+            others_of (by intro u _; rfl) (by intro u _; rfl) (by intro u _; rfl)⟩
+          intro hd; simp [hd0, hf0] at hd
+        · rename_i hlt
+          simp at h; obtain ⟨rfl, rfl⟩ := h
+          have hz : b2i sh.xalive = 0 ∧ sh.tokens = 0 ∧ sh.drainers.length = 0 ∧ sh.inner = 1 := by
+            rcases b2i_cases sh.xalive with ⟨_, hb⟩ | ⟨_, hb⟩ <;> (simp at hlt; omega)
+          have hxa : sh.xalive = false := by
+            rcases b2i_cases sh.xalive with ⟨hx, _⟩ | ⟨_, hb⟩
+            · exact hx
+            · omega
+          refine ⟨⟨gx, gxa, by simp; omega, ?_, ?_, by simp [hd0], gxd1, gxdg⟩,
+            ⟨by simp [b2n, ldr], by simp [b2n, hd0], by simp [b2n, lxd]⟩,
+            others_of (by intro u _; rfl) (by intro u hu; simp [List.count_cons, Ne.symm hu]) (by intro u _; rfl)⟩
+          · intro _; exact ⟨hxa, hz.2.1, List.length_eq_zero_iff.mp hz.2.2.1, by simp [hz.2.2.2]⟩
+          · show sh.finalized + (t :: sh.disposers).length = b2n (sh.freed || decide (t :: sh.disposers ≠ []))
+            simp [hd0, hf0, b2n] at gfin ⊢; omega
+      · simp at h
   | xdispose =>
     simp [b2n] at ldr ldp lxd
     have hm : t ∈ sh.xdl := by apply List.count_pos_iff.mp; omega
@@ -234,25 +287,24 @@ theorem step_local {sh : Sh} {t : Tid} {pc : Pc} {op : Op} {sh' : Sh} {pc' : Pc}
     have hlen := length_rm1 hm
     have hnil : rm1 sh.xdl t = [] := by apply List.length_eq_zero_iff.mp; omega
     have ⟨hxa, hxh⟩ := gxdg hne
-    have ⟨hd0, hf0⟩ := alive_of g0 (Or.inr (Or.inr (Or.inr hne)))
+    have ⟨hd0, hf0⟩ := alive_of g0 (Or.inr (Or.inr (Or.inr (Or.inl hne))))
     have hb : b2i sh.xalive = 1 := by rw [hxa]; rfl
     have hb' : b2i false = 0 := rfl
     simp only [step] at h
     split at h
     · rename_i hge
       simp at h; obtain ⟨rfl, rfl⟩ := h
-      have hpos : sh.tokens > 0 ∨ sh.drainers.length > 0 := by simp at hge; omega
       refine ⟨⟨gx, by intro _; exact hxh, by simp only [hb']; omega, ?_, gfin, gd1, by simp [hnil], by simp [hnil]⟩,
         ⟨by simp [b2n, ldr], by simp [b2n, ldp], by simp [b2n, hnil]⟩,
         others_of (by intro u _; rfl) (by intro u _; rfl) (by intro u hu; exact count_rm1_ne hu)⟩
       intro hd; simp [hd0, hf0] at hd
     · rename_i hlt
       simp at h; obtain ⟨rfl, rfl⟩ := h
-      have hz : sh.tokens = 0 ∧ sh.drainers.length = 0 := by simp at hlt; omega
+      have hz : sh.tokens = 0 ∧ sh.drainers.length = 0 ∧ sh.inner = 0 := by simp at hlt; omega
       refine ⟨⟨gx, by intro _; exact hxh, by simp only [hb']; omega, ?_, ?_, by simp [hd0], by simp [hnil], by simp [hnil]⟩,
         ⟨by simp [b2n, ldr], by simp [b2n, hd0], by simp [b2n, hnil]⟩,
         others_of (by intro u _; rfl) (by intro u hu; simp [List.count_cons, Ne.symm hu]) (by intro u hu; exact count_rm1_ne hu)⟩
-      · intro _; exact ⟨rfl, hz.1, List.length_eq_zero_iff.mp hz.2⟩
+      · intro _; exact ⟨rfl, hz.1, List.length_eq_zero_iff.mp hz.2.1, hz.2.2⟩
       · show sh.finalized + (t :: sh.disposers).length = b2n (sh.freed || decide (t :: sh.disposers ≠ []))
         simp [hd0, hf0, b2n] at gfin ⊢; omega
   | draining =>
@@ -271,7 +323,7 @@ theorem step_local {sh : Sh} {t : Tid} {pc : Pc} {op : Op} {sh' : Sh} {pc' : Pc}
       intro hd; simp [hd0, hf0] at hd
     · rename_i hlt
       simp at h; obtain ⟨rfl, rfl⟩ := h
-      have hz : b2i sh.xalive = 0 ∧ sh.tokens = 0 ∧ (rm1 sh.drainers t).length = 0 := by
+      have hz : b2i sh.xalive = 0 ∧ sh.tokens = 0 ∧ (rm1 sh.drainers t).length = 0 ∧ sh.inner = 0 := by
         rcases b2i_cases sh.xalive with ⟨_, hb⟩ | ⟨_, hb⟩ <;> (simp at hlt; omega)
       have hxa : sh.xalive = false := by
         rcases b2i_cases sh.xalive with ⟨hx, _⟩ | ⟨_, hb⟩
@@ -284,7 +336,7 @@ theorem step_local {sh : Sh} {t : Tid} {pc : Pc} {op : Op} {sh' : Sh} {pc' : Pc}
       refine ⟨⟨gx, gxa, by simp; omega, ?_, ?_, by simp [hd0], gxd1, gxdg⟩,
         ⟨by simp [b2n]; omega, by simp [b2n, hd0], by simp [b2n, lxd]⟩,
         others_of (by intro u hu; exact count_rm1_ne hu) (by intro u hu; simp [List.count_cons, Ne.symm hu]) (by intro u _; rfl)⟩
-      · intro _; exact ⟨hxa, hz.2.1, List.length_eq_zero_iff.mp hz.2.2⟩
+      · intro _; exact ⟨hxa, hz.2.1, List.length_eq_zero_iff.mp hz.2.2.1, hz.2.2.2⟩
       · show sh.finalized + (t :: sh.disposers).length = b2n (sh.freed || decide (t :: sh.disposers ≠ []))
         simp [hd0, hf0, b2n] at gfin ⊢; omega
   | dispose =>
@@ -320,12 +372,12 @@ theorem inv_reachable {s : St} (h : Reachable s) : Inv s := by
       · simpa [e] using hoth t' _ e (ih.l t')
 
 /-- **Never freed while referenced or busy**: once the object is being disposed or has been freed,
-    no client reference, queued wakeup or running drain exists. -/
+    no client reference, queued wakeup, running drain or reference from another object exists. -/
 theorem no_free_while_in_use {s : St} (h : Reachable s) (hd : s.sh.disposers ≠ [] ∨ s.sh.freed = true) :
-    s.sh.xholders = [] ∧ s.sh.tokens = 0 ∧ s.sh.drainers = [] := by
+    s.sh.xholders = [] ∧ s.sh.tokens = 0 ∧ s.sh.drainers = [] ∧ s.sh.inner = 0 := by
   have g := (inv_reachable h).g
-  have ⟨h1, h2, h3⟩ := g.dz hd
-  exact ⟨g.xa h1, h2, h3⟩
+  have ⟨h1, h2, h3, h4⟩ := g.dz hd
+  exact ⟨g.xa h1, h2, h3, h4⟩
 
 /-- **Finalised exactly once**: the dispose path runs at most once, and has run once the object is freed. -/
 theorem finalized_once {s : St} (h : Reachable s) :
